@@ -25,23 +25,23 @@ CHECKS = {
    note="as C09",
    tech="deterministic discrete-event simulation with network fault injection; reference-model oracle; tape shrinking"),
  "C11": dict(cat="exploration", engine="des-tcp", ref="4 C11",
-   text="seeded deterministic simulation of many connections (FIN, RST, stalled, re-opened 4-tuples) with network faults, backward clock jumps, closing and non-closing age-based flushes, page limits and a final flush-all against both real assemblers; after every event the lifecycle (completion exactly once, no data after it), leak (pool and page cache empty after flush-all), page-limit (out-of-order pages counted by walking the queues, also in runs whose streams keep bytes) and age-flush invariants (flushes with equal, different and absent data/closing cut-offs) are audited.",
+   text="seeded deterministic simulation of many connections (FIN, RST, stalled, re-opened 4-tuples) with network faults, backward clock jumps, closing and non-closing age-based flushes, page limits and a final flush-all against both real assemblers; after every event the lifecycle (completion exactly once, no data after it), leak (pool and page cache empty after flush-all), page-limit (out-of-order pages counted by walking the queues, also in runs whose streams keep bytes) and age-flush invariants (flushes with equal, different and absent data/closing cut-offs) are audited; a few runs per thousand hold over 1024 connections and buffered pages at once so that pool and page cache grow beyond their first allocation.",
    note="trusted: harness model; pages in use and pool size are read through verif-tagged accessors; pages in use, queued and kept pages are read through verif-tagged accessors that walk the lists",
    tech="deterministic discrete-event simulation with fault injection; invariant audit after every event"),
  "C13": dict(cat="exploration", engine="des-defrag", ref="4 C13",
-   text="seeded deterministic simulation of fragmenting senders (headers 20-60 bytes, payloads up to the maximum 65535 minus header, cuts at multiples of 8), a reordering/duplicating/dropping network with key reuse, a hostile injector (conflicting overlaps, holes, undersized, beyond 65535, complete sets that are oversize only with their header, >8192 fragments) and discard timers on a simulated clock in front of the real IPv4 defragmenter (and fragments in any order with duplicates in front of the IPv6 one); a per-key model of the received set decides at every call whether nothing, an error or exactly the original datagram must come back, and every returned byte must have been placed at its offset by a received fragment.",
+   text="seeded deterministic simulation of fragmenting senders (headers 20-60 bytes, payloads up to the maximum 65535 minus header, cuts at multiples of 8), a reordering/duplicating/dropping network with key reuse, a hostile injector (conflicting overlaps, holes, undersized, beyond 65535, complete sets that are oversize only with their header, up to the maximum of 8190 fragments and beyond) and discard timers on a simulated clock in front of the real IPv4 defragmenter (and fragments in any order with duplicates in front of the IPv6 one); a per-key model of the received set decides at every call whether nothing, an error or exactly the original datagram must come back, every returned byte must have been placed at its offset by a received fragment, and a returned datagram is either a row of whole received fragments or contradicted by no received fragment (conflicting overlaps give an error or nothing).",
    note="trusted: harness fragmenter and per-key model; fragments are built field by field with consistent Length; IPv6 behaviour after completion and IPv6 discard (reads the real clock) are not checked",
    tech="deterministic discrete-event simulation with network and hostile-input fault injection; reference-model oracle"),
  "C14": dict(cat="fault_enumeration", engine="sim-disk", ref="4 C14",
-   text="seeded captures are written by the real pcap (us/ns) and pcapng writers into a simulated file; every written pcapng file is walked at byte level (block framing), the round trip is checked through a chunked simulated stream with the copying and zero-copy calls - whatever the copying call returned is examined again after all later reads - (and by libpcap for a seeded subset), and then the crash space is enumerated: the file is cut at every byte offset (exhaustive for files up to 2 KiB; all write boundaries +-2 plus a seeded sample beyond) and the reader must return exactly the wholly contained packets and then an EOF-class error. Exhaustive over cut positions per file; the files are seeded samples.",
+   text="seeded captures are written by the real pcap (us/ns) and pcapng writers into a simulated file; every written pcapng file is walked at byte level (block framing), the round trip is checked through a chunked simulated stream with the copying calls, the zero-copy calls and a drawn mix of both on one reader - whatever the copying call returned is examined again after all later reads - (and by libpcap for a seeded subset), and then the crash space is enumerated: the file is cut at every byte offset (exhaustive for files up to 2 KiB; all write boundaries +-2 plus a seeded sample beyond) and the reader must return exactly the wholly contained packets and then an EOF-class error. Exhaustive over cut positions per file; the files are seeded samples.",
    note="trusted: harness packet generator and comparison; block boundaries are taken from the simulated file's length after each flushed packet; libpcap is a second reader for single-link-type files only",
    tech="deterministic simulation of file and stream with crash-point enumeration (cut at every byte) and short-read injection"),
  "C15": dict(cat="exploration", engine="sim-disk", ref="4 C15",
-   text="seeded structurally valid pcap / pcapng / snoop inputs (harness-built, both byte orders, every field a named mutation target) with boundary-value field corruptions, consistent inflation of all the length fields of one record or block (a huge claim that passes the consistency checks), random tails, truncations and gzip wrapping are read through fault-free, chunked and failing simulated streams with the copying and zero-copy calls; oracles: no panic, no spin at EOF, allocation per call in proportion to bytes present plus declared snap length, data length == capture length <= length, results independent of chunking, prefix property and surfacing of an injected read error. The thorough tier sweeps every error offset for inputs up to 512 bytes.",
+   text="seeded structurally valid pcap / pcapng / snoop inputs (harness-built, both byte orders, every field a named mutation target) with boundary-value field corruptions, consistent inflation of all the length fields of one record or block (a huge claim that passes the consistency checks, the block length sometimes a few words off), sections with fewer interfaces than their predecessor, random tails, truncations and gzip wrapping are read through fault-free, chunked and failing simulated streams with the copying and zero-copy calls; oracles: no panic, no spin at EOF, allocation per call in proportion to bytes present plus declared snap length, data length == capture length <= length, results independent of chunking, prefix property and surfacing of an injected read error. The thorough tier sweeps every error offset for inputs up to 512 bytes.",
    note="trusted: harness file builders and oracles; allocation measured with runtime/metrics and confirmed with runtime.ReadMemStats before it is reported; children run under a 3 GiB address-space limit; a child that dies of out-of-memory or a run that does not finish is re-executed alone and, if it fails again, reported as allocation/out-of-memory resp. no-hang/run-does-not-finish with a by-seed replay",
    tech="deterministic simulation of the byte stream with short-read, data+EOF and read-error injection over seeded structure-aware corruptions"),
  "C16": dict(cat="exploration", engine="bubble", ref="4 C16",
-   text="the real PacketSource, including its background goroutine, channel, retry sleeps and context handling, runs inside a testing/synctest bubble (fake clock, durable-blocking detection); a tape-driven controller releases one actor at a time (data source result, consumer step, cancellation, clock advance) and checks once-in-order-intact delivery with capture metadata and truncation flag, retry within 5 ms of simulated time after transient errors, channel closed and source never read again after end of input, no new read and a closed channel after cancellation, refusal of zero-copy + NoCopy on the channel interface, and no goroutine left at the end of the bubble - also when the consumer walks away after the cancellation (reader parked on the full 1000-slot channel, in its retry sleep or in a read); data sources include concatenations of finite sources (ConcatFinitePacketDataSources: each sub-source read in order and never again after its io.EOF) and a second Packets/PacketsCtx call must return the same channel without a second reader.",
+   text="the real PacketSource, including its background goroutine, channel, retry sleeps and context handling, runs inside a testing/synctest bubble (fake clock, durable-blocking detection); a tape-driven controller releases one actor at a time (data source result, consumer step, cancellation, clock advance) and checks once-in-order-intact delivery with capture metadata and truncation flag (packets of 0 to 9000 captured bytes; with the Pool option the program goes on decoding pooled packets while it holds what it was given), retry within 5 ms of simulated time after transient errors, channel closed and source never read again after end of input, no new read and a closed channel after cancellation, refusal of zero-copy + NoCopy on the channel interface, and no goroutine left at the end of the bubble - also when the consumer walks away after the cancellation (reader parked on the full 1000-slot channel, in its retry sleep or in a read); data sources include concatenations of finite sources (ConcatFinitePacketDataSources: each sub-source read in order and never again after its io.EOF) and a second Packets/PacketsCtx call must return the same channel without a second reader - or be refused if NoCopy was switched on for a zero-copy source in between.",
    note="trusted: harness actors and oracle; Go's select among ready cases is not owned (the packet in flight at cancellation is optional in the oracle); the data source is a stub, decoding uses gopacket.DecodePayload",
    tech="deterministic simulation in a synctest bubble with gated actors, scripted source faults (timeouts, transient and terminal errors), cancellation points and simulated clock"),
  "C20": dict(cat="exploration", engine="bubble", ref="4 C20 and 9.1",
@@ -49,15 +49,15 @@ CHECKS = {
    note="trusted: harness actors and the element-by-element read model; single consumer goroutine",
    tech="deterministic simulation in a synctest bubble with gated actors; close-point and read-size fault injection; deadlock detection by durable blocking"),
  "C02": dict(cat="exploration", engine="coop", ref="4 C02",
-   text="2-4 real goroutines run under the cooperative scheduler, one at a time, over a seeded corpus (harness-built Ethernet/Dot1Q/IPv4/IPv6/TCP/UDP/ICMP/GRE/ARP/DNS query and answer stacks, the 147 packet byte arrays of gopacket's own layer tests with their first-layer types, near-duplicates, truncations, bit flips): decoders compare every NewPacket result with a quiet-state reference decode of the same bytes and options (history and schedule independence), readers call the read-only accessors, String/Dump and VerifyChecksums on eager packets published by other goroutines and must get the answers recorded from a twin decode of the same bytes (the shared packet itself is handed over untouched, optionally after SetNetworkLayerForChecksum so that TCP/UDP checksums are really verified), and the input buffers must be unchanged; the same simulation is run in a -race build whose scheduler hand-off is invisible to the race detector, so any write to shared packet memory is reported although the goroutines never ran simultaneously; a third unit runs every simulated run in a process of its own with nothing decoded or rendered beforehand, built against the lock-instrumented copy of the repository, so that process-lifetime state (tables, caches) is first used by concurrent workers interleaved at its own lock sites, and compares their answers with each other and with a reference taken after the run.",
+   text="2-4 real goroutines run under the cooperative scheduler, one at a time, over a seeded corpus (harness-built Ethernet/Dot1Q/IPv4/IPv6/TCP/UDP/ICMP/GRE/ARP/DNS query and answer stacks, the 173 packets of gopacket's own layer tests (byte arrays, string literals, hex strings) with the decoder the test uses, DHCPv4 messages with every legal option layout, near-duplicates, truncations, bit flips): decoders compare every NewPacket result with a quiet-state reference decode of the same bytes and options (history and schedule independence), readers call the read-only accessors, String/Dump and VerifyChecksums on eager packets published by other goroutines and must get the answers recorded from a twin decode of the same bytes (the shared packet itself is handed over untouched, optionally after SetNetworkLayerForChecksum so that TCP/UDP checksums are really verified), and the input buffers must be unchanged; the same simulation is run in a -race build whose scheduler hand-off is invisible to the race detector, so any write to shared packet memory is reported although the goroutines never ran simultaneously; a third unit runs every simulated run in a process of its own with nothing decoded or rendered beforehand, built against the lock-instrumented copy of the repository, so that process-lifetime state (tables, caches) is first used by concurrent workers interleaved at its own lock sites, and compares their answers with each other and with a reference taken after the run.",
    note="trusted: harness packet generator, signature renderer and hand-off (one atomic pointer per published packet); schedules are explored at API-call granularity, a torn intermediate value inside one call cannot be produced; the race detector keeps a bounded history per word",
    tech="deterministic cooperative scheduling of real goroutines with a race-detector-invisible hand-off; reference-decode oracle"),
  "C04": dict(cat="exploration", engine="coop", ref="4 C04",
-   text="2-4 real goroutines under the cooperative scheduler execute seeded sequences of decode (default, NoCopy, Pool, Pool+Lazy, Lazy), Dispose, producer-overwrites-its-buffer and hand-over to another goroutine, over inputs including lengths 0, 1, 1499, 1500, 1501, 3000; after every step every live copied packet must still render as when it was created, NoCopy/Pool decodes must equal the default decode, and no two undisposed pooled packets may share a pool block; a -race build runs the same simulation.",
+   text="2-4 real goroutines under the cooperative scheduler execute seeded sequences of decode (default, NoCopy, Pool, Pool+Lazy, Lazy), Dispose, producer-overwrites-its-buffer and hand-over to another goroutine, over inputs including lengths 0, 1, 1499, 1500, 1501, 3000; after every step every live copied packet must still render as when it was created, NoCopy/Pool decodes must equal the default decode, and no two undisposed pooled packets may share a pool block; one run in twenty holds a row of 20-220 pooled packets at once, gives all back and decodes as many again; garbage collections are a per-run fault; a -race build runs the same simulation.",
    note="trusted: as C02; which pool block a decode gets is decided by sync.Pool (per-P caches, random drops under -race) and is not owned, verdicts do not depend on it",
    tech="deterministic cooperative scheduling of real goroutines with a race-detector-invisible hand-off; ownership/aliasing oracle after every step"),
  "C12": dict(cat="exploration", engine="coop", ref="4 C12",
-   text="2-3 assembler goroutines plus an optional flusher share one real StreamPool (both packages) under the cooperative scheduler: exactly one goroutine runs, each parks at every API call boundary, every stream callback, in front of every lock acquisition and behind every lock release of the package (hand-placed verif-tagged hooks plus an instrumented scratch copy of the repository in which cmd/instrument puts a verifhook call in front of every x.Lock()/x.RLock() and behind every x.Unlock()/x.RUnlock() statement, so that locks a change adds or moves are covered too; the released worker tries the lock first so blocked workers are known and deadlock is a verdict), and the next runner is drawn from the tape (random pre-emption, PCT-style priorities or injected long stalls, chosen per run). The merged history is checked for panics, deadlock, a single live stream per connection, non-overlapping callbacks, the in-order delivery model for directions fed by one assembler, cross-stream deliveries and exactly-once completion; -race builds of both packages run the same simulation with the hand-off hidden from the race detector.",
+   text="2-3 assembler goroutines plus an optional flusher share one real StreamPool (both packages) under the cooperative scheduler: exactly one goroutine runs, each parks at every API call boundary, every stream callback, in front of every lock acquisition and behind every lock release of the package (hand-placed verif-tagged hooks plus an instrumented scratch copy of the repository in which cmd/instrument puts a verifhook call in front of every x.Lock()/x.RLock() and behind every x.Unlock()/x.RUnlock() statement, so that locks a change adds or moves are covered too; the released worker tries the lock first so blocked workers are known and deadlock is a verdict), and the next runner is drawn from the tape (random pre-emption, PCT-style priorities or injected long stalls, chosen per run). The merged history is checked for panics, deadlock, a single live stream per connection, non-overlapping callbacks, the in-order delivery model for directions fed by one assembler (including completeness after the final flush-all when nothing is lost and no flush closes), cross-stream deliveries and exactly-once completion; connections closed by their FINs are re-opened on the same 4-tuple, behind a barrier in ordered runs and unordered in split runs; -race builds of both packages run the same simulation with the hand-off hidden from the race detector.",
    note="trusted: scheduler, hooks (add-only lines in front of lock acquisitions), offline history checker; code between two yield points runs atomically; the race detector keeps a bounded history per word",
    tech="deterministic cooperative scheduling of real goroutines with lock-aware yield hooks and a race-detector-invisible hand-off; offline history oracle"),
 }
